@@ -13,6 +13,7 @@ pub fn literal_texts() -> Vec<&'static str> {
         "", "a", "A", "abc", "a b", " a", "\u{e9}", "a.c", "^a", "a$", "(?i)ABC", "[", ".*", "b|c",
         "0", "1", "42", "-1", "-0", "+5", "007", "0x10", "0xff", "0xFF", "0x", "0X10", "0Xff", "0b11", "0o17", "1_000", "1.5", "-2.5", "1.0", "42.0",
         "18446744073709551615", "18446744073709551616", "9223372036854775808", "-9223372036854775808",
+        "0xffffffffffffffff", "0x8000000000000000", "0x7fffffffffffffff", "0xffffffff81000000", "-0x10", "0x10000000000000000", "-", "+",
         "-9223372036854775809", "1e3", "1.e3", ".5", "5.", "inf", "NaN", "none", "some", "true", "false", "True",
         "4", "6", "255", "-3", "0.5",
     ]
@@ -38,12 +39,12 @@ pub fn field_values() -> Vec<FieldValue> {
     for s in [
         "", "a", "A", "abc", "ABC", "xabcx", "a b", "\"a\"", "a\"", "'a'", "a'", "\u{e9}", "none", "some", "true", "0", "1",
         "42", "-1", "-3", "0x10", "0xff", "1.5", "1.0", "-2.5", "18446744073709551616", "zz", "4", "6", "7", "255",
-        "42.0", "+5", "5", "0.5", "b", "ac",
+        "42.0", "+5", "5", "0.5", "b", "ac", "-", "+", "-x", ".", "0xffffffffffffffff", "0x8000000000000000",
     ] {
         v.push(FieldValue::String(s.into()));
     }
     v.push(FieldValue::String("x".repeat(5000)));
-    for u in [0u64, 1, 4, 5, 6, 7, 16, 42, 255, 1 << 53, (1 << 53) + 1, 1 << 63, u64::MAX] {
+    for u in [0u64, 1, 4, 5, 6, 7, 16, 42, 255, 1 << 53, (1 << 53) + 1, 1 << 63, u64::MAX, 0xffffffff81000000, i64::MAX as u64] {
         v.push(FieldValue::Number(Number::Uint(u)));
     }
     for i in [-1i64, -3, -42, i64::MIN, 5, 0, i64::MAX] {
@@ -98,6 +99,8 @@ pub fn gen(tier: &str, seed: u64, out: &mut dyn FnMut(Value)) {
             out(single_test_case(op, &lit, &events, &mut rng, &format!("op {}", OPS[op].0)));
         }
     }
+    // field tests against events whose lookups go through derived getters and the crate's own `FieldGetter` impls
+    crate::props::engine::gen_derived(&mut rng, if tier == "thorough" { 10000 } else { 1000 }, "events served by derived getters", out);
     // keywords are lower case only: any other spelling, unquoted, is not in the grammar and the rule must not compile
     for kw in ["None", "Some", "True", "False", "NONE", "SOME", "TRUE", "FALSE", "nOne", "tRUE", "nil", "null"] {
         for opt in ["==", "is", "<", "~=", "&="] {
